@@ -136,9 +136,9 @@ def _union_states(bdir, tag):
 
 
 def run(tier):
-    d = 5 if tier == 'thorough' else 4
+    d = 5 if tier == 'thorough' else 3
     a = 3
-    masks = 'every single-bit flip (8 masks)' if tier == 'thorough' else '{^01,^80}'
+    masks = 'every single-bit flip (8 masks)' if tier == 'thorough' else '{^01,^80} (quick: corruption sweep on the packets with <= 2 enumerated attributes)'
     rep = core.Report(PROP, tier, 'model_checking',
         'DNS: every name of the grammar (labels c^L, c in {a,Z,0,-}, L in {1,2,62,63}, 1..4 labels = 69904 names, text length 1..255) '
         'through the raw and message-level label encoder/decoder; every section-ordered sequence of <= %d add operations over 18 '
@@ -184,7 +184,8 @@ def run(tier):
                            'corruptions_not_compared(receiver-defined)': _note_sum(rep, 'radius_corruptions_unspecified'),
                            'wrong_secret_trials': _note_sum(rep, 'radius_wrong_secret_trials'),
                            'wrong_secret_reference_accepts(Access-Request without Message-Authenticator)': _note_sum(rep, 'radius_wrong_secret_ref_accept'),
-                           'duplicate_adds_refused': _note_sum(rep, 'radius_duplicate_adds_refused')}
+                           'duplicate_adds_refused': _note_sum(rep, 'radius_duplicate_adds_refused'),
+                           'duplicate_adds_accepted(not enforced)': _note_sum(rep, 'radius_duplicate_adds_accepted')}
     rep.notes = [n for n in rep.notes if n.startswith('optrr_') or n.startswith('deadline') or n.startswith('shard')]
     rep.finish(core.make_replayer(lambda cfg: bins[cfg], tier))
 
